@@ -41,6 +41,8 @@ var joinFlagWiring = map[string]struct {
 	"-r":                      {"rightJoinFieldNames", ""},
 	"--lp":                    {"leftPrefix", ""},
 	"--rp":                    {"rightPrefix", ""},
+	"--prepipe":               {"prepipe", ""},
+	"--prepipex":              {"prepipe", ""},
 	"--lk":                    {"leftKeepFieldNames", ""},
 	"--left-keep-field-names": {"leftKeepFieldNames", ""},
 	"-f":                      {"leftFileName", ""},
@@ -163,7 +165,7 @@ func runC13(c *Ctx, r *Report) {
 		for _, flag := range missing {
 			r.Undecided("R13.1", "flag "+flag, c.Rel(parser.Pos()), "no case for this flag was found in the parser's switch")
 		}
-		r.Floor("R13.1", "flags of the join verb read from its parser", len(seen), 12)
+		r.Floor("R13.1", "flags of the join verb read from its parser", len(seen), 14)
 	}
 
 	// ---- R13.2 each side keyed by its own names; R13.5 --ignore-empty at every keying
@@ -419,5 +421,190 @@ func runC13(c *Ctx, r *Report) {
 			fmt.Sprintf("%s has a path on which a left record whose key was taken is appended neither to a bucket nor to the unpairable list: the record is lost", SSAName(fn)))
 	}
 	r.Floor("R13.6", "left-file ingest loops", nleft, 1)
+
+	// ---- R13.8 the constructor does not mix the sides ---------------------------
+	r.Rule("R13.8", "the constructor keeps the sides apart: in NewTransformerJoin, what is stored into a field of the verb named left… or right… (a set of field names, a list), and every key put into a map loaded from such a field, derives from option fields of the same side only (leftJoinFieldNames, leftKeepFieldNames / rightJoinFieldNames) — the output names given with -j are neither side's field names")
+	nside := 0
+	sideOf := func(name string) string {
+		switch {
+		case strings.HasPrefix(name, "left"):
+			return "left"
+		case strings.HasPrefix(name, "right"):
+			return "right"
+		}
+		return ""
+	}
+	var optFieldsIn func(v ssa.Value, depth int, out map[string]bool)
+	optFieldsIn = func(v ssa.Value, depth int, out map[string]bool) {
+		if v == nil || depth > 10 {
+			return
+		}
+		if base, name, ok := fieldLoadName(v); ok {
+			if pt, ok := base.Type().Underlying().(*types.Pointer); ok && strings.Contains(strings.ToLower(pt.Elem().String()), "joinoptions") {
+				out[name] = true
+				return
+			}
+		}
+		switch x := v.(type) {
+		case *ssa.Call:
+			for _, a := range x.Call.Args {
+				optFieldsIn(a, depth+1, out)
+			}
+		case *ssa.Extract:
+			optFieldsIn(x.Tuple, depth+1, out)
+		case *ssa.Next:
+			optFieldsIn(x.Iter, depth+1, out)
+		case *ssa.Range:
+			optFieldsIn(x.X, depth+1, out)
+		case *ssa.UnOp:
+			optFieldsIn(x.X, depth+1, out)
+		case *ssa.IndexAddr:
+			optFieldsIn(x.X, depth+1, out)
+		case *ssa.Index:
+			optFieldsIn(x.X, depth+1, out)
+		case *ssa.Phi:
+			for _, e := range x.Edges {
+				optFieldsIn(e, depth+1, out)
+			}
+		case *ssa.Slice:
+			optFieldsIn(x.X, depth+1, out)
+		case *ssa.Convert:
+			optFieldsIn(x.X, depth+1, out)
+		case *ssa.ChangeType:
+			optFieldsIn(x.X, depth+1, out)
+		}
+	}
+	for _, fn := range fns {
+		if fn.Name() != "NewTransformerJoin" {
+			continue
+		}
+		k := 0
+		check := func(target string, v ssa.Value, pos token.Pos) {
+			side := sideOf(target)
+			if side == "" {
+				return
+			}
+			srcs := map[string]bool{}
+			optFieldsIn(v, 0, srcs)
+			if len(srcs) == 0 {
+				return
+			}
+			nside++
+			k++
+			var bad []string
+			for nm := range srcs {
+				if sideOf(nm) != side {
+					bad = append(bad, nm)
+				}
+			}
+			sort.Strings(bad)
+			r.Check(len(bad) == 0, "R13.8", fmt.Sprintf("NewTransformerJoin: %s #%d", target, k), c.Rel(pos), "from the "+side+" side's option fields only",
+				fmt.Sprintf("NewTransformerJoin fills %s from the option field(s) %v, which are not the %s side's: the set or list then holds names the %s records do not use", target, bad, side, side))
+		}
+		for _, b := range fn.Blocks {
+			for _, in := range b.Instrs {
+				switch x := in.(type) {
+				case *ssa.Store:
+					if _, name, ok := fieldAddrName(x.Addr); ok {
+						if pt, ok := x.Addr.(*ssa.FieldAddr).X.Type().Underlying().(*types.Pointer); ok && strings.HasSuffix(pt.Elem().String(), "TransformerJoin") {
+							check(name, x.Val, x.Pos())
+						}
+					}
+				case *ssa.MapUpdate:
+					if _, name, ok := fieldLoadName(x.Map); ok {
+						check(name, x.Key, x.Pos())
+					}
+				}
+			}
+		}
+	}
+	r.Floor("R13.8", "side-named fields filled in the constructor", nside, 3)
+
+	// ---- R13.9 the left file is read whatever the right stream holds -----------
+	r.Rule("R13.9", "the left file is read whatever the right stream holds: the call of ingestLeftFile in a record function stands under no test of the input's EndOfStream flag — read only when the first right record arrives, an empty right stream leaves the left file unread and --ul emits nothing")
+	ningest := 0
+	for _, fn := range fns {
+		for _, b := range fn.Blocks {
+			for _, in := range b.Instrs {
+				call, ok := in.(*ssa.Call)
+				if !ok || call.Call.StaticCallee() == nil || call.Call.StaticCallee().Name() != "ingestLeftFile" {
+					continue
+				}
+				ningest++
+				underEOS, _ := guardOnOption(b, "EndOfStream")
+				r.Check(!underEOS, "R13.9", SSAName(fn)+": ingestLeftFile", c.Rel(call.Pos()), "on the end-of-stream path as well as on the record path",
+					fmt.Sprintf("%s reads the left file only on one side of a test of EndOfStream: when no right record ever arrives the left records are never read, and --ul has nothing to emit", SSAName(fn)))
+			}
+		}
+	}
+	r.Floor("R13.9", "calls of ingestLeftFile", ningest, 1)
+
+	// ---- R13.7 no flag is parsed and then ignored -----------------------------
+	r.Rule("R13.7", "no flag of the join verb is parsed and then ignored: every field of the verb's options struct that its parser stores into is read somewhere in package transformers (by the parser's own hand-over to the reader options, by the constructor or by a record function) — --prepipe was stored and never read, and the left file was read raw")
+	if parser != nil {
+		stored := map[string]token.Pos{}
+		var optsType types.Type
+		for _, b := range parser.Blocks {
+			for _, in := range b.Instrs {
+				st, ok := in.(*ssa.Store)
+				if !ok {
+					continue
+				}
+				fa, ok := st.Addr.(*ssa.FieldAddr)
+				if !ok {
+					continue
+				}
+				pt, ok := fa.X.Type().Underlying().(*types.Pointer)
+				if !ok || !strings.Contains(strings.ToLower(pt.Elem().String()), "joinoptions") {
+					continue
+				}
+				optsType = pt.Elem()
+				_, name, _ := fieldAddrName(fa)
+				if _, dup := stored[name]; !dup {
+					stored[name] = st.Pos()
+				}
+			}
+		}
+		loaded := map[string]bool{}
+		if optsType != nil {
+			for _, fn := range c.ModuleFunctions() {
+				if fn.Pkg == nil || fn.Blocks == nil || !strings.Contains(fn.Pkg.Pkg.Path(), "/pkg/transformers") {
+					continue
+				}
+				for _, b := range fn.Blocks {
+					for _, in := range b.Instrs {
+						fa, ok := in.(*ssa.FieldAddr)
+						if !ok || fa.Referrers() == nil {
+							continue
+						}
+						pt, ok := fa.X.Type().Underlying().(*types.Pointer)
+						if !ok || !types.Identical(pt.Elem(), optsType) {
+							continue
+						}
+						_, name, _ := fieldAddrName(fa)
+						for _, ref := range *fa.Referrers() {
+							switch x := ref.(type) {
+							case *ssa.UnOp:
+								loaded[name] = true
+							case *ssa.FieldAddr, *ssa.Call:
+								loaded[name] = true // a nested struct handed on or reached into
+								_ = x
+							}
+						}
+					}
+				}
+			}
+		}
+		var names []string
+		for nm := range stored {
+			names = append(names, nm)
+		}
+		sort.Strings(names)
+		for _, nm := range names {
+			r.Check(loaded[nm], "R13.7", "option field "+nm, c.Rel(stored[nm]), "read somewhere in package transformers",
+				fmt.Sprintf("the join verb's parser stores into the option field %s and nothing ever reads it: the flag is accepted and has no effect", nm))
+		}
+		r.Floor("R13.7", "option fields the join parser stores into", len(names), 10)
+	}
 	_ = types.Typ
 }
